@@ -83,7 +83,10 @@ def _quant(run, n, sort, mk, q):
     finally:
         run.frames[-1].env = saved
     if pats is not None:
-        return BoolV(q(consts, body, patterns=pats))
+        try:
+            return BoolV(q(consts, body, patterns=pats))
+        except z3.Z3Exception:
+            pass        # not a valid trigger for this instance of the clause (e.g. it contains a lambda): let z3 choose
     return BoolV(q(consts, body))
 
 
